@@ -101,7 +101,17 @@ InitRun(c, viol, stats, run) ==
        host |-> [p \in 0..N-1 |-> Get(pc[p], "host", 0)],
        nlocals |-> [p \in 0..N-1 |-> IF isP2P(p) THEN Len(pc[p].locals) ELSE 0],
        truth |-> [h \in 0..NP-1 |-> TruthInit(Get(pc[owner[h]], "delay", 0))],
-       pr |-> [p \in 0..N-1 |-> PeerInit(NP, N, ~isP2P(p))],
+       \* (model runs may start after the handshake: every address has completed its life cycle's first phase)
+       pr |-> [p \in 0..N-1 |->
+                 IF Get(c, "presynced", FALSE)
+                 THEN LET rem == IF ~isP2P(p) THEN {Get(pc[p], "host", 0)}
+                                 ELSE ({owner[h] : h \in 0..NP-1} \ {p})
+                                      \cup {q \in 0..N-1 : ~isP2P(q) /\ Get(pc[q], "host", 0) = p}
+                      IN [PeerInit(NP, N, ~isP2P(p)) EXCEPT
+                            !.evs = [q \in 0..N-1 |-> IF q \in rem THEN <<"run", 0>> ELSE EvInit],
+                            !.matched = [q \in 0..N-1 |-> IF q \in rem THEN NumSyncRoundTrips ELSE 0],
+                            !.run = TRUE]
+                 ELSE PeerInit(NP, N, ~isP2P(p))],
        run |-> run,
        viol |-> viol,
        stats |-> stats ]
